@@ -157,6 +157,9 @@ def pyMax (xs : List Rat) : Py Rat :=
 /-- elementwise map over an `(n, 2)` array -/
 def mapIvals {α β : Type} (f : α → β) (xs : List (α × α)) : List (β × β) := xs.map fun p => (f p.1, f p.2)
 
+/-- elementwise `a - b` of two `(n, 2)` arrays of the same shape -/
+def subIvals (a b : List (Rat × Rat)) : List (Rat × Rat) := List.zipWith (fun p q => (p.1 - q.1, p.2 - q.2)) a b
+
 /-- `util.index_labels(labels)[0]` (extern): equal indices exactly for labels equal after `str.lower` (ASCII); the
     index VALUES are not modelled — the translated code only compares them with each other (`np.equal.outer`) -/
 def labelKeys (labels : List String) : List String := labels.map String.toLower
